@@ -3,4 +3,4 @@ From PV Require Import Lib.ExtractBase Model.Robust.
 Extraction Language OCaml.
 Extraction "extracted/C19_model.ml" xb_types substr_call substr_seq atoi parse_chain apply_chain var_header_one
   var_header_process assert_process grpc_assert xpath_values var_xpath_process var_jsonpath_process
-  extract_elem pre_eval base_shoot shoot_step scenario_shoot executed instance_run is_panic.
+  extract_elem pre_eval grpc_shoot grpc_bind base_shoot shoot_step scenario_shoot executed instance_run is_panic.
